@@ -53,7 +53,7 @@ func Grouping(t *Truth) *Report {
 		for _, k := range groupMembers(t, ep, n, a.GroupLabels) {
 			l := t.LabelsOf(k)
 			must := true
-			for _, x := range t.Samples(a.Tick, a.Start) {
+			for _, x := range t.Samples(a.Tick.Add(-2*t.IngestLag()), a.Start) {
 				if !r.Alerts.SurelyFiring(k, x) || t.PossiblySuppressed(l, ep, n, x) {
 					must = false
 					break
@@ -103,9 +103,22 @@ func APIPartition(t *Truth) *Report {
 			}
 			return c
 		}
+		// scenarios with yield hooks hold submissions between the API call and the insertion into the groups
+		// (the harness's own doing): the groups may lag behind the provider by that much
+		lag := 2 * t.IngestLag()
 		for _, k := range r.Alerts.Keys() {
 			l := t.LabelsOf(k)
 			sure, poss := r.Alerts.SurelyFiring(k, p.T), r.Alerts.PossiblyFiring(k, p.T)
+			if lag > 0 {
+				for _, x := range t.Samples(p.T.Add(-lag), p.T) {
+					if !r.Alerts.SurelyFiring(k, x) {
+						sure = false
+					}
+					if r.Alerts.PossiblyFiring(k, x) {
+						poss = true
+					}
+				}
+			}
 			if !poss {
 				continue
 			}
